@@ -21,9 +21,9 @@ ASSUMPTIONS = [
     "results, exit content and exceptions are still judged",
     "objects bound to the same file in different buffered states are not generated (documented as unsupported)",
 ]
-STRATA = ["default_cap", "small_cap", "adopted_nodes"]
-PER = {"quick": {"default_cap": 500, "small_cap": 150, "adopted_nodes": 1},
-       "thorough": {"default_cap": 4000, "small_cap": 800, "adopted_nodes": 1}}
+STRATA = ["default_cap", "small_cap", "collide", "adopted_nodes"]
+PER = {"quick": {"default_cap": 500, "small_cap": 150, "collide": 150, "adopted_nodes": 1},
+       "thorough": {"default_cap": 4000, "small_cap": 800, "collide": 800, "adopted_nodes": 1}}
 STEPS = {"quick": 35, "thorough": 60}
 
 
@@ -39,7 +39,9 @@ def plan(tier, seed):
 def make_case(spec, i, tag="C05", nres=None, p_read=0.35):
     info = catalog.info(spec["cls"])
     r = gen.rng_for(spec["seed"], tag, spec["cls"], spec["cfg"], spec["stratum"], i)
-    g = gen.G(r, attr=info.attr)
+    # stratum collide: scalars that are ==-equal across JSON types (1 / True / 1.0 / 0 / False / 0.0) and a
+    # preference for reset()/update() as the first buffered access
+    g = gen.G(r, attr=info.attr, collide=spec["stratum"] == "collide")
     nres = nres or r.choice([1, 1, 2])
     inits = [MISSING if r.random() < 0.15 else g.shape(info.kind, 2) for _ in range(nres)]
     ms = ModelState(info.kind, inits)
@@ -55,6 +57,8 @@ def make_case(spec, i, tag="C05", nres=None, p_read=0.35):
     pending = []
     if spec["stratum"] == "adopted_nodes":
         return _witness_d20(info, spec)
+    if spec["stratum"] == "collide" and r.random() < 0.4:
+        return _type_flip_case(info, spec, r)
     while len(steps) < n:
         x = r.random()
         if x < 0.14 and depth < 4:
@@ -144,6 +148,49 @@ def make_case(spec, i, tag="C05", nres=None, p_read=0.35):
     if small:
         case["small_capacity"] = True
     return case
+
+
+def _flip(x):
+    """The same data with every 0/1-valued scalar replaced by an ==-equal scalar of another JSON type."""
+    if isinstance(x, dict):
+        return {k: _flip(v) for k, v in x.items()}
+    if isinstance(x, list):
+        return [_flip(v) for v in x]
+    if x is True:
+        return 1
+    if x is False:
+        return 0
+    if isinstance(x, int) and x in (0, 1):
+        return bool(x)
+    if isinstance(x, float) and x in (0.0, 1.0, 2.0):
+        return int(x)
+    if isinstance(x, int) and x == 2:
+        return 2.0
+    return x
+
+
+def _type_flip_case(info, spec, r):
+    """Directed: the first buffered access is a reset()/update() that changes only JSON types."""
+    if info.kind == "dict":
+        init = {"a": 1, "b": True, "c": {"x": 0, "y": [1.0, False, 2]}, "s": "t"}
+    else:
+        init = [1, True, {"x": 0, "y": [1.0, False, 2]}, "t"]
+    new = _flip(init)
+    steps = []
+    depth = r.choice([1, 2, 3])
+    for _ in range(depth):
+        steps.append({"enter": "obj", "h": 0} if r.random() < 0.5 else {"enter": "backend", "cap": None})
+    how = r.choice(["reset", "reset", "update"]) if info.kind == "dict" else "reset"
+    if how == "reset":
+        steps.append({"op": "reset", "h": 0, "path": [], "args": [new]})
+    else:
+        steps.append({"op": "update", "h": 0, "path": [], "args": ["mapping", new, None]})
+    steps.append({"op": "call", "h": 0, "path": [], "args": []})
+    for _ in range(depth):
+        steps.append({"exit": 1})
+    steps.append({"op": "call", "h": 0, "path": [], "args": []})
+    return {"cls": info.name, "cfg": spec["cfg"], "res": [init], "roots": [[0, 0]], "steps": steps,
+            "stratum": "collide", "oracle": {"results": True, "resource_strict": True, "buffer_defers": True}}
 
 
 def _witness_d20(info, spec):
